@@ -80,26 +80,32 @@ func R33() Rule {
 			fn := P.MustFunc(t.pkg, t.fn)
 			c.Fn(t.fn)
 			n := 0
-			for _, lp := range rangeLoops(fn) {
-				if !elemIs(lp.elem, t.elems...) {
-					continue
+			tpkg := t.pkg
+			for _, lf := range P.Scope(fn, func(f *ssa.Function) bool { return core.PkgPathOf(f) != tpkg }) {
+				if lf != fn && !lastResultIsErrorType(lf) {
+					continue // a query helper over the elements acknowledges nothing
 				}
-				n++
-				construct := fmt.Sprintf("%s/loop#%d/no-early-success", t.fn, n)
-				var bad *ssa.Return
-				for _, r := range returnsIn(fn) {
-					if !lp.body.Dominates(r.Block()) {
+				for _, lp := range rangeLoops(lf) {
+					if !elemIs(lp.elem, t.elems...) {
 						continue
 					}
-					ie, transport := isErrorReturn(r)
-					if !ie || transport {
-						bad = r
+					n++
+					construct := fmt.Sprintf("%s/loop#%d/no-early-success", t.fn, n)
+					var bad *ssa.Return
+					for _, r := range returnsIn(lf) {
+						if !lp.body.Dominates(r.Block()) {
+							continue
+						}
+						ie, transport := isErrorReturn(r)
+						if !ie || transport {
+							bad = r
+						}
 					}
-				}
-				if bad != nil {
-					c.Bad("R33", construct, bad.Pos(), "a success return sits inside the loop over the request's elements: the remaining elements are silently dropped while the request is acknowledged")
-				} else {
-					c.Ok("R33", construct, lp.header.Instrs[0].Pos(), true, "every return inside the per-element loop reports an error; success is only returned after the loop")
+					if bad != nil {
+						c.Bad("R33", construct, bad.Pos(), "a success return sits inside the loop over the request's elements: the remaining elements are silently dropped while the request is acknowledged")
+					} else {
+						c.Ok("R33", construct, lp.header.Instrs[0].Pos(), true, "every return inside the per-element loop reports an error; success is only returned after the loop")
+					}
 				}
 			}
 			if n == 0 {
